@@ -11,7 +11,8 @@ EVIDENCE = dict(
          "project - and TLC (Trace_RVFormat) checks loaded = Norm(original), loaded = Read(bytes), bytes = Write(original); "
          "one module per type continues as a history (save, edit in place, save, load, edit, save) and one is wrapped in a Synth "
          "while attached to a project; a Synth without a module must raise EmptySynthError and write nothing. non-trivial = the module differs from a "
-         "freshly constructed one.",
+         "freshly constructed one."
+         " Deterministic boundary objects (gen.boundary_sources) are round-tripped stand-alone, cloned and inside a project.",
     explanation="reference evaluation of RVFormat on every generated module; MC_RVFormat supplies the design-level states")
 
 
